@@ -86,6 +86,11 @@ def gen_tpipe(rng, depth, sid):
         n = count_len(p)
         if n is not None:
             sel = [rng.randrange(n) for _ in range(rng.randint(0, n + 1))] if n else []
+            if n and rng.random() < 0.4:
+                # the same selection written as a slice object ds[a:b] (the model sees the positions)
+                a = rng.randrange(n)
+                b = rng.randint(a, n)
+                return {'op': 'slice', 'sel': list(range(a, b)), 'ab': [a, b], 'p': p}, kind, True
             return {'op': 'slice', 'sel': sel, 'p': p}, kind, True
     if op == 'catch' and idxable and count_len(p) is not None:
         return {'op': 'catch', 'E': rng.choice([['UserA'], ['ValueError'], ['UserA', 'ValueError'], ['UserBase']]), 'p': p}, kind, False
@@ -153,6 +158,8 @@ def build_real(p, log, rngs):
     if op == 'zip':
         return build_real(p['p'], log, rngs).zip(build_real(p['q'], log, rngs))
     if op == 'slice':
+        if 'ab' in p:
+            return build_real(p['p'], log, rngs)[p['ab'][0]:p['ab'][1]]
         return build_real(p['p'], log, rngs)[list(p['sel'])]
     if op == 'catch':
         from impl import exc_tuple
@@ -406,7 +413,8 @@ def small_tpipes(depth):
             if n > 0:
                 m.append({'op': 'intersperse', 'p': p, 'q': side})
                 if 'cache' not in ops_of(p):
-                    m += [{'op': 'tile', 'r': 2, 'p': p}, {'op': 'slice', 'sel': [n - 1, 0, 0], 'p': p}]
+                    m += [{'op': 'tile', 'r': 2, 'p': p}, {'op': 'slice', 'sel': [n - 1, 0, 0], 'p': p},
+                          {'op': 'slice', 'sel': list(range(n // 2, n)), 'ab': [n // 2, n], 'p': p}]
         return m
 
     def renumber(t, c):
